@@ -37,7 +37,7 @@ type langEvent struct {
 	Req        int       `json:"req"`
 	Mode       string    `json:"mode"`
 	Input      string    `json:"input"`
-	Lang       string    `json:"lang"`    // session language after the request
+	Lang       string    `json:"lang"` // session language after the request
 	LangBefore string    `json:"langbefore"`
 	Cont       bool      `json:"cont"`
 	Err        bool      `json:"err"`
@@ -69,7 +69,7 @@ func cmdLangRun(args []string) error {
 	ctx := context.Background()
 	langs := []string{"nor", "fra", "swa"}
 	nodes := map[string][]Instr{
-		"root":   {{Op: "MOUT", A: "item", B: "1"}, {Op: "MOUT", A: "other", B: "2"}, {Op: "HALT"}, {Op: "INCMP", A: "sw", B: "1"}, {Op: "INCMP", A: "sub", B: "2"}, {Op: "INCMP", A: "quit", B: "3"}},
+		"root": {{Op: "MOUT", A: "item", B: "1"}, {Op: "MOUT", A: "other", B: "2"}, {Op: "HALT"}, {Op: "INCMP", A: "sw", B: "1"}, {Op: "INCMP", A: "sub", B: "2"}, {Op: "INCMP", A: "quit", B: "3"}},
 		// (sub is only entered from root and only left upwards: the static symbol is loaded afresh, in the language the session
 		// has at that request, every time the node is shown - a symbol still visible from an earlier visit would rightly be kept)
 		"sw":     {{Op: "LOAD", A: "setlang", N: 0}, {Op: "MOUT", A: "back", B: "0"}, {Op: "HALT"}, {Op: "INCMP", A: "_", B: "0"}, {Op: "INCMP", A: "_", B: "2"}},
